@@ -256,3 +256,32 @@ META['C17'] = dict(outside='call sequences (each entry point is run once from an
 
 # C01 also claims the search filter (private objects invisible unless the user is logged in)
 OBLIGATIONS['C01'] = OBLIGATIONS['C01'] + [o for o in OBLIGATIONS['C19'] if o.name == 'find_empty'] + [o for o in OBLIGATIONS['C09'] if o.name == 'create_object'] + [o for o in OBLIGATIONS['C11'] if o.name == 'hm_tokenLoggedOut']
+
+# ----------------------------------------------------------------------------- C16 / C15 (object file protocol)
+OBJFILE_REAL = ['object_store/ObjectFile.cpp', 'object_store/File.cpp', 'object_store/Generation.cpp', 'object_store/OSAttribute.cpp', 'data_mgr/ByteString.cpp']
+OBJFILE_TIERS = ()   # not finished within the budgets yet: kept out of the registered tiers (see DESIGN.md)
+def _of(op, name, desc, **kw):
+    return Ob('objfile_' + name, 'C16/objfile.cpp', OBJFILE_REAL, defines={'OP': op, 'BS_CAP': 8, 'FCAP': 88, 'NFILES': 2, 'NSTREAMS': 4, 'VSTL_CAP': 3}, unwind=10, caps='C16/caps.h',
+              unwind_rules=[(r'^harness|vio_freeze', 100), (r'basic_string|char_traits|strlen|memcpy|ir_mem', 12)], desc=desc,
+              bounds='object with three attributes (bool, 2-byte string, 1-element mechanism set): shape concrete, values symbolic; file <= 88 bytes', timeout=900, mem=16, tiers=OBJFILE_TIERS, **kw)
+_C16 = [
+    _of(3, 'loader_cut', 'ObjectFile loader (refresh) on the complete 83-byte object file cut at EVERY length 0..83: a cut inside a record body is rejected; boundary cuts are known findings'),
+    _of(1, 'crash', 'crash at every file operation of ObjectFile::setAttribute (rewrite in place) with every prefix of the data in flight, then recovery by a fresh ObjectFile: valid => old or new state'),
+]
+_C15 = [_of(0, 'share', 'two ObjectFile instances on one file (two processes): format pin, identical values, a committed change of one is seen by the other at its next access, no lost update')]
+OBLIGATIONS['C05'] += [_C15[0], _of(2, 'fault', 'one failing file operation at every point of ObjectFile::setAttribute: success is only reported when the new value is on the (model) disk')]
+if OBJFILE_TIERS:
+    OBLIGATIONS['C16'] = _C16; OBLIGATIONS['C15'] = _C15
+META['C16'] = dict(outside='multi-file calls (object creation + directory entry, C_InitToken mkdir sequence), real kernel / file-system crash semantics (metadata ordering), SQLite; objects of other shapes', assumptions=['crash / durability model of harness/common/vio_model.h: data are durable once flushed, a crash during a flush leaves any prefix, ftruncate is durable at once'])
+META['C15'] = dict(outside='interleavings at file-operation granularity between two writers (advisory locks make a whole store()/refresh() atomic for real processes: modelled as atomic calls); directory-level protocol (OSToken::index, added/removed files); three processes; real fcntl semantics', assumptions=['model file system shared by the two instances; each store()/refresh() call is atomic (fcntl lock)'])
+
+# ----------------------------------------------------------------------------- C_UnwrapKey (C09 / C13 / C07 / C01)
+UNWRAP_STUBS = {'_ZN7SoftHSM12UnwrapKeySymEP13_CK_MECHANISMR10ByteStringP5TokenP8OSObjectS3_': 'sink_unwrap', '_ZN7SoftHSM13UnwrapKeyAsymEP13_CK_MECHANISMR10ByteStringP5TokenP8OSObjectS3_': 'sink_unwrap',
+                '_ZN7SoftHSM12CreateObjectEmP13_CK_ATTRIBUTEmPmi': 'sink_create', '_ZN5Token7decryptERK10ByteStringRS0_': 'tag_token_decrypt', '_ZN5Token7encryptERK10ByteStringRS0_': 'tag_token_encrypt'}
+for _n in ('_ZNK7SoftHSM16setRSAPrivateKeyEP8OSObjectRK10ByteStringP5Tokenb', '_ZNK7SoftHSM16setDSAPrivateKeyEP8OSObjectRK10ByteStringP5Tokenb', '_ZNK7SoftHSM15setDHPrivateKeyEP8OSObjectRK10ByteStringP5Tokenb',
+           '_ZNK7SoftHSM15setECPrivateKeyEP8OSObjectRK10ByteStringP5Tokenb', '_ZNK7SoftHSM15setEDPrivateKeyEP8OSObjectRK10ByteStringP5Tokenb'):
+    UNWRAP_STUBS[_n] = 'sink_setPriv'
+UNWRAP_OB = Ob('unwrap_key', 'C09/unwrap_entry.cpp', ENTRY_REAL_NOP11, defines={'BS_CAP': 16, 'MODEL_OUT_MAX': 4}, unwind=18, stubs=UNWRAP_STUBS, caps='common/entry_caps.h', unwind_rules=[(r'ir_memcpy', 120)],
+    desc='C_UnwrapKey: unwrapping key needs CKA_UNWRAP, fitting type, allowed + advertised mechanism, and the logged-in user when private; new key private only for the user, token only via RW; unwrapped key is not local / never-extractable / always-sensitive and committed in one transaction; a rejected or failed unwrap leaves no object and no handle',
+    bounds='mechanism all 2^64 values, parameter <= 48 bytes, wrapped blob <= 16 bytes, template (CLASS, KEY_TYPE [, TOKEN | PRIVATE]); decryption, CreateObject and PKCS#8 import are cuts with symbolic results', timeout=600, mem=30)
+OBLIGATIONS['C09'].append(UNWRAP_OB); OBLIGATIONS['C13'].append(UNWRAP_OB); OBLIGATIONS['C07'].append(UNWRAP_OB)
